@@ -24,10 +24,10 @@ def run(chk):
         'table-changing history steps')
     chk.mc('MC_BoolFun', 'MC_BoolFun.cfg')
     sh = common.stage_graph(chk, 'MC_Ops2', 'MC_Let2.cfg' if q else 'MC_Let2_deep.cfg',
-                            ['a', 'b'], 2, limit=1200 if q else 50000,
+                            ['a', 'b'], 2, limit=chk.th(1200, 50000),
                             need_actions=['quantify', 'cofactor', 'compose', 'vcompose', 'rename', 'rename2', 'gc', 'swap'])
-    sh += common.stage_histories(chk, ntraces=48 if q else 2000,
-                                 steps=120 if q else 300, nvars_choices=[3, 4, 5])
+    sh += common.stage_histories(chk, ntraces=chk.th(48, 2000),
+                                 steps=chk.th(120, 300), nvars_choices=[3, 4, 5])
     tasks = []
     tid = 7000000
     for i, o in enumerate(ORDERS3):
@@ -47,7 +47,7 @@ def run(chk):
         tid += 1
     sw, res = chk.generate(sweep.c03_sweep_task, tasks)
     chk.extra['sweep_results_judged'] = sum(r['events'] for r in res)
-    sh_stream = common.stage_histories(chk, ntraces=32 if q else 1500, steps=10 if q else 40,
+    sh_stream = common.stage_histories(chk, ntraces=chk.th(32, 1500), steps=chk.th(10, 40),
                                        nvars_choices=[3, 4, 4], profile='stream', tag='st')
     sh += common.stage_wide(chk, 'mixed')
     chk.validate('TraceBDD', 'TraceBDD.cfg', sh + sh_stream)
